@@ -218,7 +218,20 @@ Section ONENTRIES.
         match run st' r with Done cs => Done (out ++ cs) | Panicked cs => Panicked (out ++ cs) end
       end
     end.
+
+  (* the same loop, keeping apart what has already been sent on the channel: (responses sent so far,
+     Some open state | None after a panic) *)
+  Fixpoint steps (st : chunk * CS) (ks : list call) : list chunk * option (chunk * CS) :=
+    match ks with
+    | [] => ([], Some st)
+    | k :: r =>
+      match on_entries st k with
+      | None => ([], None)
+      | Some (st', out) => let '(o, s) := steps st' r in (out ++ o, s)
+      end
+    end.
 End ONENTRIES.
+Definition result_chunks (r : result) : list chunk := match r with Done cs => cs | Panicked cs => cs end.
 
 (* ---------------------------------------------------------------- Loki push: unmarshal.go (JSON), logsProtobuf.go *)
 Record lentry := LE { le_ts : Z; le_line : option string; le_val : option N }.
